@@ -61,6 +61,51 @@ pub fn replay(sink: &mut Sink, toks: &[&str]) {
     sink.case("stream", &[&cfg, toks[2], toks[3], toks[4], toks[5]], &o, "replay", true);
 }
 
+/// Tag `long-stream`: every item is independent of the call history — also of what earlier items left in the Deserializer's
+/// scratch buffer, which lives across `next()` calls. Streams of 2–4 long decimals (the significand overflows u64 while the
+/// fraction is read), 20+-digit integers, long numbers with exponents, short numbers, and strings (the reader source copies
+/// every string into the scratch buffer, str / slice only strings with an escape) or containers holding them, followed by long
+/// decimals; every separator; all three sources (through `emit`).
+fn long_streams(sink: &mut Sink, cfg: &str, r: &mut Rng, thorough: bool) {
+    const LONG: [&str; 12] = ["0.12345678901234567890123", "0.98765432109876543210987", "3.141592653589793238462643383279",
+        "0.3000000000000000444089209850062616169452667236328125", "18446744073709551616", "123456789012345678901", "-340282366920938463463374607431768211456",
+        "12345678901234567890.5", "-0.00000123456789012345678901234", "1.2345678901234567890123e5", "99999999999999999999e-7", "1844674407370955161.55555"];
+    const STRS: [&str; 8] = ["\"x\"", "\"line\\nbreak\"", "\"42\"", "\"\\u0031\"", "{\"k\\t\":\"v\"}", "[\"a\",1,null]", "\"0.5\\u0000\"", "{\"\\u0039\":1}"];
+    const SHORT: [&str; 6] = ["0.5", "1e3", "12345678901234567890", "-0.0", "7", "null"];
+    for a in LONG.iter() { for b in LONG.iter() {
+        for sep in [" ", "\n"] { emit(sink, cfg, format!("{}{}{}", a, sep, b).as_bytes(), 4, "long-stream"); }
+    } }
+    for s in STRS.iter() { for a in LONG.iter() {
+        emit(sink, cfg, format!("{} {}", s, a).as_bytes(), 4, "long-stream-str");
+        emit(sink, cfg, format!("{}[{}]", s, a).as_bytes(), 4, "long-stream-str");
+    } }
+    for _ in 0..(if thorough { 3000 } else { 300 }) {
+        let k = 2 + r.below(3);
+        let mut d = String::new();
+        let mut has_str = false;
+        for i in 0..k {
+            let item: String = match r.below(10) {
+                0 | 1 | 2 | 3 | 4 => {
+                    // a fresh long number: 20–34 digits, the point anywhere (or none), sometimes an exponent
+                    let n = 20 + r.below(15);
+                    let mut ds = String::new(); ds.push((b'1' + r.below(9) as u8) as char); for _ in 1..n { ds.push((b'0' + r.below(10) as u8) as char); }
+                    let mut s = match r.below(4) { 0 => ds, 1 => format!("0.{}", ds), _ => { let j = 1 + r.below(n - 1); format!("{}.{}", &ds[..j], &ds[j..]) } };
+                    if r.chance(1, 4) { s.push_str(&format!("e{}", r.below(40) as i32 - 20)); }
+                    if r.chance(1, 5) { format!("-{}", s) } else { s }
+                }
+                5 | 6 => (*r.pick(&LONG)).to_string(),
+                7 => { has_str = true; (*r.pick(&STRS)).to_string() }
+                8 => format!("[{},{}]", r.pick(&LONG), r.pick(&LONG)),
+                _ => (*r.pick(&SHORT)).to_string(),
+            };
+            if i > 0 { d.push_str(*r.pick(&[" ", "\n", "\t", " \r\n", " "])); }
+            d.push_str(&item);
+        }
+        if r.chance(1, 3) { d.push('\n'); }
+        emit(sink, cfg, d.as_bytes(), k + 2, if has_str { "long-stream-str" } else { "long-stream" });
+    }
+}
+
 pub fn run(sink: &mut Sink, thorough: bool, seed: u64) {
     let mut r = Rng::new(seed);
     let cfg = cfg_tag();
@@ -76,6 +121,7 @@ pub fn run(sink: &mut Sink, thorough: bool, seed: u64) {
         exhaustive(&toks, len, 0, 1, |b| inputs.push(b.to_vec()));
         for b in inputs { emit(sink, &cfg, &b, len + 3, &format!("exh{}", len)); }
     }
+    long_streams(sink, &cfg, &mut r, thorough);
     // concatenations of generated values with every separator choice, truncated and corrupted
     let n = if thorough { 6000 } else { 600 };
     for _ in 0..n {
